@@ -28,7 +28,7 @@ EXPLANATION = (
     "R-C18-3: TS = TN^(1/(-slope)) in the analysers agrees in normal form with the Woehler accessor's TS = TN^(1/k_1) for "
     "k_1 = -slope, and k_1 is reported as -slope. Not decided: scale equivariance through the optimisers, exact recovery of "
     "synthetic curves, likelihood ordering.")
-EXPLANATION += (' R-C18-4: values that carry the unit of the load (load column, finite/infinite transition, SD, ...; interprocedural typing) meet numeric constants only as comparisons with zero - a non-zero threshold or clamp makes the result depend on the load unit. R-C18-5: no analysis function writes into a caller-provided argument and no mutable default argument is ever written (effect analysis through closures).')
+EXPLANATION += (' R-C18-2 also requires the reported transition to be the midpoint of the lowest finite-zone load and the highest run-out load. R-C18-4 (applied to the load unit and, likewise, to the cycle unit: cycles, ND): values that carry the unit of the load (load column, finite/infinite transition, SD, ...; interprocedural typing) meet numeric constants only as comparisons with zero - a non-zero threshold or clamp makes the result depend on the load unit. R-C18-5: no analysis function writes into a caller-provided argument and no mutable default argument is ever written (effect analysis through closures).')
 ASSUMPTIONS = [
     "scipy.stats.linregress and sums are invariant under a common permutation of their paired arguments",
     "pandas groupby sorts group keys by default; np.unique and the 1-D set operations return sorted arrays",
@@ -50,22 +50,30 @@ LOAD_ATTRS = ("load", "finite_infinite_transition", "fatigue_limit", "fractured_
 LOAD_KEYS = ("SD", "SD_50", "load")
 
 
-class LoadTyping:
-    """Which expressions carry the unit of the load (scale with the load axis)?"""
+CYCLE_ATTRS = ("cycles", "ND", "finite_cycles", "max_cycles", "min_cycles")
+CYCLE_KEYS = ("ND", "cycles", "ND_50")
+CYCLE_NAMES = ("ND", "ND_50", "ND_start", "cycles", "N")
 
-    def __init__(self, prog, modules):
+
+class LoadTyping:
+    """Which expressions carry a given unit (scale with the load axis / with the cycle axis)?"""
+
+    def __init__(self, prog, modules, attrs=None, keys=None, names=None):
         self.prog = prog
         self.modules = modules
         self.param = {}      # (func key, param) -> True
+        self.attrs = attrs or LOAD_ATTRS
+        self.keys = keys or LOAD_KEYS
+        self.names = names or ("SD", "SD_50", "SD_start", "load", "loads", "fatigue_limit", "finite_infinite_transition")
 
     def is_load(self, e, env):
         if isinstance(e, ast.Name):
             return env.get(e.id, False)
         if isinstance(e, ast.Attribute):
-            return e.attr in LOAD_ATTRS or (e.attr in ("values", "iloc", "loc") and self.is_load(e.value, env))
+            return e.attr in self.attrs or (e.attr in ("values", "iloc", "loc") and self.is_load(e.value, env))
         if isinstance(e, ast.Subscript):
             if isinstance(const_value(e.slice), str):
-                return const_value(e.slice) in LOAD_KEYS
+                return const_value(e.slice) in self.keys
             return self.is_load(e.value, env)
         if isinstance(e, ast.Call):
             fn = call_name(e) or ""
@@ -85,7 +93,7 @@ class LoadTyping:
     def env_of(self, fi):
         env = {p_: True for p_ in fi.params if self.param.get((fi.key, p_))}
         for p_ in fi.params:
-            if p_ in ("SD", "SD_50", "SD_start", "load", "loads", "fatigue_limit", "finite_infinite_transition"):
+            if p_ in self.names:
                 env[p_] = True
         for _ in range(2):
             for st in walk_stmts(fi.node.body):
@@ -165,6 +173,20 @@ def _r4(ctx):
                              "the analysis result changes when all loads are given in another unit (scaled)" % (fi.name, text),
                              text=text)
     ctx.holds(MODS[0], None, "%d load-typed locals/parameters traced over %d functions" % (typed, len(funcs)), {"typed": typed})
+    # the same for the cycle axis (multiplying all cycle numbers by c must multiply the knee by c and change nothing else)
+    ct = LoadTyping(prog, MODS, attrs=CYCLE_ATTRS, keys=CYCLE_KEYS, names=CYCLE_NAMES)
+    cfuncs = ct.run()
+    ctyped = 0
+    for fi in cfuncs:
+        ctyped += len(ct.env_of(fi))
+        for node, text, ok in ct.sinks(fi):
+            if ok:
+                ctx.holds(fi, node, "%s: cycle-typed value compared with zero only (%s)" % (fi.name, text))
+            else:
+                ctx.violated(fi, node, "%s: %s compares or clamps a value that carries the cycle unit against a non-zero number: "
+                             "the analysis result changes when all cycle numbers are given in another unit (e.g. mega-cycles)"
+                             % (fi.name, text), text="cycles " + text)
+    ctx.holds(MODS[0], None, "%d cycle-typed locals/parameters traced over %d functions" % (ctyped, len(cfuncs)), {"typed": ctyped})
     # positive example: the rule fires on a clamp and stays silent on the zero test
     from ..frontend import Program as _P
     src = ("class A:\n    def f(self):\n        x = self._fd.finite_infinite_transition\n        if x == 0:\n            x = 0.1\n"
@@ -302,7 +324,7 @@ def _r1(ctx):
 
 def _r2(ctx):
     prog = ctx.prog
-    ctx.rule("R-C18-2", floor=1, what="finite and infinite zone masks are complementary at one limit")
+    ctx.rule("R-C18-2", floor=2, what="finite and infinite zone masks are complementary at one limit")
     f = prog.func(PKG + "fatigue_data:FatigueData._calc_finite_zone_manual")
     lim = [p for p in f.params if p != "self"][0]
     masks = {}
@@ -329,6 +351,22 @@ def _r2(ctx):
     else:
         ctx.violated(f, masks["_infinite_zone"][0], "zone masks %s / %s do not partition the tests at the transition" %
                      (norm_text(masks["_finite_zone"][1]), norm_text(masks["_infinite_zone"][1])))
+    h = prog.func(PKG + "fatigue_data:FatigueData._half_level_above_highest_runout")
+    rets = [x for x in walk_function(h.node) if isinstance(x, ast.Return) and isinstance(x.value, ast.BinOp)]
+    okh = False
+    if rets:
+        v = rets[0].value
+        terms = []
+        if isinstance(v.op, ast.Div) and const_value(v.right) == 2 and isinstance(v.left, ast.BinOp) and isinstance(v.left.op, ast.Add):
+            terms = [norm_text(v.left.left), norm_text(v.left.right)]
+        okh = sorted(terms) == sorted(["self._finite_zone.load.min()", "self.max_runout_load"])
+    if okh:
+        ctx.holds(h, rets[0], "reported transition = midpoint of the lowest finite-zone load and the highest run-out load: it lies "
+                  "between the two zones the split produced")
+    else:
+        ctx.violated(h, rets[0] if rets else h.node, "the reported transition is %s, not the midpoint between the lowest load of the "
+                     "finite zone and the highest run-out load: tests of the infinite zone can lie above the reported transition"
+                     % (norm_text(rets[0].value) if rets else "?"), text="transition midpoint")
     g = prog.func(PKG + "fatigue_data:FatigueData._calc_finite_zone")
     c = [c for c in calls_in(g.node) if isinstance(c.func, ast.Attribute) and c.func.attr == "_calc_finite_zone_manual"]
     if len(c) == 1 and is_self_attr(c[0].args[0], "max_runout_load"):
@@ -405,6 +443,24 @@ PB = "src/pylife/materialdata/woehler/probit.py"
 
 def variants():
     out = []
+
+    def nd_threshold(tree):
+        f = find_func(tree, "Likelihood.likelihood_finite")
+        for n in ast.walk(f):
+            if isinstance(n, ast.If) and "SD" in ast.unparse(n.test):
+                n.test = parse_expr(ast.unparse(n.test) + " or ND < 1.0")
+                return True
+        return False
+    out.append(witness("likelihood rejects a knee below one cycle", "src/pylife/materialdata/woehler/likelihood.py", nd_threshold, "R-C18-4"))
+
+    def transition_other_set(tree):
+        f = find_func(tree, "FatigueData._half_level_above_highest_runout")
+        for n in ast.walk(f):
+            if isinstance(n, ast.Attribute) and n.attr == "_finite_zone" and isinstance(n._parent, ast.Attribute):
+                n.attr = "fractures"
+                return True
+        return False
+    out.append(witness("transition midpoint from all fractures instead of the finite zone", FD, transition_other_set, "R-C18-2"))
 
     def clamp_transition(tree):
         f = find_func(tree, "Elementary._transition_cycles")
